@@ -3,13 +3,11 @@
    (HashRepo.v - the functions that are extracted and run against the compiled C) satisfy the
    theorems of Sha256Proofs / Sha1Proofs / Md5Proofs / HmacProofs / Pbkdf2Proofs.
    Every table equality is by vm_compute and is used below: a changed table breaks this file.
-   C20: the contexts returned by the six Final functions are all-zero because the zero sets the
-   interpreter (Alg/HashWipe.v) computes from the REGENERATED statement lists and struct layouts
-   contain every field - by vm_compute on those lists, through mask256_zero / mask32_zero: a wipe
-   removed from, mis-sized in, made conditional in or moved inside the C breaks these proofs. *)
-From Coq Require Import String.
+   Nothing in this file depends on what the Final functions do to the context afterwards (the digest
+   theorems hold for every [wipe]); the C20 statements about the returned context are in
+   Alg/HashWipeRepoProofs.v, so that a changed wipe breaks C20's proofs and not C01's. *)
 From Coq Require Import Arith NArith ZArith List Lia.
-From LCP Require Import Base.CheckedMem Gen.Repo_hash Alg.Words Alg.WordsProofs Alg.MDSpec Alg.MDModel Alg.Sha256Spec Alg.Sha256Model Alg.Sha256Proofs Alg.MD32Model Alg.MD32Proofs Alg.Sha1Spec Alg.Sha1Model Alg.Sha1Proofs Alg.Md5Spec Alg.Md5Model Alg.Md5Proofs Alg.HmacSpec Alg.HmacModel Alg.HmacProofs Alg.Pbkdf2Spec Alg.Pbkdf2Model Alg.Pbkdf2Proofs Alg.HashSpecs Alg.HashWipe Alg.HashWipeProofs Alg.HashRepo.
+From LCP Require Import Base.CheckedMem Gen.Repo_hash Alg.Words Alg.WordsProofs Alg.MDSpec Alg.MDModel Alg.Sha256Spec Alg.Sha256Model Alg.Sha256Proofs Alg.MD32Model Alg.MD32Proofs Alg.Sha1Spec Alg.Sha1Model Alg.Sha1Proofs Alg.Md5Spec Alg.Md5Model Alg.Md5Proofs Alg.HmacSpec Alg.HmacModel Alg.HmacProofs Alg.Pbkdf2Spec Alg.Pbkdf2Model Alg.Pbkdf2Proofs Alg.HashSpecs Alg.HashWipe Alg.HashRepo.
 Import ListNotations.
 Local Open Scope N_scope.
 
@@ -90,16 +88,6 @@ Proof.
   intros H. rewrite sha256_final_eq, sha256_update_eq. unfold fin256, c256_final. cbn [fst].
   fold fin256_internal. apply sha256_resume_correct. exact H.
 Qed.
-
-Theorem repo_sha256_final_zeroes_ctx c : c256_is_zero (snd (sha256_final c)) = true.
-Proof.
-  unfold sha256_final, c256_final. cbn [snd].
-  apply mask256_zero; vm_compute; reflexivity.
-Qed.
-
-Theorem repo_sha256_final_wipes_whole :
-  wipes_whole_ctx hash_structs hash_final_fns "SHA256_Final"%string = true.
-Proof. vm_compute. reflexivity. Qed.
 
 (* ---------------- alg/sha1.c ---------------- *)
 Lemma repo_sha1_iv_eq_spec : sha1_iv = H0_1. Proof. vm_compute. reflexivity. Qed.
@@ -187,16 +175,6 @@ Theorem repo_sha1_resume c parts : wf32 5 true c ->
   SHA1_resume_spec (c32_state c) (c32_count0 c * 4294967296 + c32_count1 c) (c32_buf c) (concat parts).
 Proof. intros H. rewrite sha1_final_eq, sha1_update_eq. apply sha1_resume_correct. exact H. Qed.
 
-Theorem repo_sha1_final_zeroes_ctx c : c32_is_zero (snd (sha1_final c)) = true.
-Proof.
-  unfold sha1_final, sha1_final_with, c32_final. cbn [snd].
-  apply mask32_zero; vm_compute; reflexivity.
-Qed.
-
-Theorem repo_sha1_final_wipes_whole :
-  wipes_whole_ctx hash_structs hash_final_fns "SHA1_Final"%string = true.
-Proof. vm_compute. reflexivity. Qed.
-
 Lemma sha1_nowipe_streaming parts :
   fst (sha1_final_nowipe (fold_left sha1_update parts sha1_init)) = SHA1_spec (concat parts).
 Proof.
@@ -277,16 +255,6 @@ Theorem repo_md5_resume c parts : wf32 4 false c ->
   MD5_resume_spec (c32_state c) (c32_count1 c * 4294967296 + c32_count0 c) (c32_buf c) (concat parts).
 Proof. intros H. rewrite md5_final_eq, md5_update_eq. apply md5_resume_correct. exact H. Qed.
 
-Theorem repo_md5_final_zeroes_ctx c : c32_is_zero (snd (md5_final c)) = true.
-Proof.
-  unfold md5_final, md5_final_with, c32_final. cbn [snd].
-  apply mask32_zero; vm_compute; reflexivity.
-Qed.
-
-Theorem repo_md5_final_wipes_whole :
-  wipes_whole_ctx hash_structs hash_final_fns "MD5_Final"%string = true.
-Proof. vm_compute. reflexivity. Qed.
-
 Lemma md5_nowipe_streaming parts :
   fst (md5_final_nowipe (fold_left md5_update parts md5_init)) = MD5_spec (concat parts).
 Proof.
@@ -344,18 +312,6 @@ Proof.
   rewrite app_nil_r in E. symmetry. exact E.
 Qed.
 
-Theorem repo_hmac_sha256_final_zeroes_ctx c : hctx256_is_zero (snd (hmac256_final c)) = true.
-Proof.
-  unfold hmac256_final, hmac_final.
-  destruct (hmac_final_internal ctx256 sha256_update sha256_final_internal hmac_sha256_ihash_len c) as [dg c'].
-  unfold hctx256_is_zero. cbn [snd hm_ictx hm_octx].
-  rewrite !mask256_zero by (vm_compute; reflexivity). reflexivity.
-Qed.
-
-Theorem repo_hmac_sha256_final_wipes_whole :
-  wipes_whole_ctx hash_structs hash_final_fns "HMAC_SHA256_Final"%string = true.
-Proof. vm_compute. reflexivity. Qed.
-
 Theorem repo_hmac_sha1_correct K parts :
   fst (hmacsha1_final (fold_left hmacsha1_update parts (hmacsha1_init K))) =
   HMAC_SHA1_spec K (concat parts).
@@ -376,18 +332,6 @@ Proof.
            sha1_nowipe_streaming SHA1_spec_length ltac:(lia) K m).
 Qed.
 
-Theorem repo_hmac_sha1_final_zeroes_ctx c : hctx32_is_zero (snd (hmacsha1_final c)) = true.
-Proof.
-  unfold hmacsha1_final, hmac_final.
-  destruct (hmac_final_internal ctx32 sha1_update sha1_final_nowipe hmac_sha1_ihash_len c) as [dg c'].
-  unfold hctx32_is_zero. cbn [snd hm_ictx hm_octx].
-  rewrite !mask32_zero by (vm_compute; reflexivity). reflexivity.
-Qed.
-
-Theorem repo_hmac_sha1_final_wipes_whole :
-  wipes_whole_ctx hash_structs hash_final_fns "HMAC_SHA1_Final"%string = true.
-Proof. vm_compute. reflexivity. Qed.
-
 Theorem repo_hmac_md5_correct K parts :
   fst (hmacmd5_final (fold_left hmacmd5_update parts (hmacmd5_init K))) =
   HMAC_MD5_spec K (concat parts).
@@ -407,18 +351,6 @@ Proof.
   exact (hmac_buf_correct ctx32 md5_init md5_update md5_final_nowipe (fun c => c) (fun c => c) MD5_spec 16
            md5_nowipe_streaming MD5_spec_length ltac:(lia) K m).
 Qed.
-
-Theorem repo_hmac_md5_final_zeroes_ctx c : hctx32_is_zero (snd (hmacmd5_final c)) = true.
-Proof.
-  unfold hmacmd5_final, hmac_final.
-  destruct (hmac_final_internal ctx32 md5_update md5_final_nowipe hmac_md5_ihash_len c) as [dg c'].
-  unfold hctx32_is_zero. cbn [snd hm_ictx hm_octx].
-  rewrite !mask32_zero by (vm_compute; reflexivity). reflexivity.
-Qed.
-
-Theorem repo_hmac_md5_final_wipes_whole :
-  wipes_whole_ctx hash_structs hash_final_fns "HMAC_MD5_Final"%string = true.
-Proof. vm_compute. reflexivity. Qed.
 
 (* ---------------- PBKDF2-HMAC-SHA256 ---------------- *)
 Lemma HMAC_SHA256_spec_length K m : length (HMAC_SHA256_spec K m) = 32%nat.
